@@ -373,6 +373,17 @@ class Scenario:
         for n in [self.A, *self.fillers, self.B]:
             if not self.is_peer(self.I, n) or not self.is_peer(n, self.I):
                 raise HarnessError(f"set-up walk of {n.name} to the introducer did not connect them")
+        if self.case.get("stale"):
+            # an earlier session: the candidates verified A when it still lived at another port (before its restart / its
+            # NAT's new mapping). The introducer has no such record; the old address answers nobody.
+            from ipv8.peer import Peer
+            pub_a = self.pub(self.A)
+            old = (pub_a[0], 19000 + self.case["stale"])
+            for n in [*self.fillers, self.B]:
+                ghost = Peer(self.A.my_peer.public_key.key_to_bin(), UDPv4Address(*old))
+                n.network.add_verified_peer(ghost)
+                n.network.discover_services(ghost, [n.overlay.community_id])
+            self.hist.append("stale_record_of_requester")
         dual = self.case.get("dual", 0) if self.case["style"] == "old" and self.case["rounds"] == 1 else 0
         if dual:
             # the introducer has also heard from some candidates over IPv6 (dual-stack peers: IPv6 is then their
@@ -674,7 +685,7 @@ def base_case(cfg: dict, idx: int) -> dict:
             "b_new": cfg["b_new"], "fillers": [["pub", 0]] * (cfg["k"] - 1), "rseed": idx, "rounds": 1,
             "picks": [], "early": 0, "order": 0, "alike": (idx // 5) % 2, "disc": (idx // 10) % 2,
             "pool": (idx // 20) % 2, "walker": (idx // 2) % 3,
-            "dual": (idx // 3) % 3, "lose_first": (idx // 4) % 2, "outer": (idx // 7) % 3, "clock": (idx // 3) % 6}
+            "dual": (idx // 3) % 3, "lose_first": (idx // 4) % 2, "outer": (idx // 7) % 3, "clock": (idx // 3) % 6, "stale": (idx // 5) % 2}
 
 
 def _strategy(cfg: dict):
@@ -698,6 +709,7 @@ def _strategy(cfg: dict):
         "lose_first": st.sampled_from([0, 0, 1]),
         "outer": st.sampled_from([0, 0, 0, 1, 2]),
         "clock": st.sampled_from([0, 0, 1, 2, 3, 4, 5]),
+        "stale": st.sampled_from([0, 0, 1]),
     })
 
 
